@@ -99,7 +99,7 @@ def boundaries(case):
         out.append(pos)
         q = pos
         for s in segs:
-            if s[0] in ("atom", "data"):
+            if s[0] in ("atom", "line", "data"):
                 q += s[1]
                 out.append(q)
         pos += len(p)
